@@ -391,10 +391,11 @@ impl Ranges {
         values: &LocalesOrNamespaces,
         top_locale: &Key,
         default_locale: &Key,
+        extensions: &BTreeMap<Key, Key>,
         path: &KeyPath,
     ) -> Result<()> {
         self.try_for_each_value(move |value| {
-            value.resolve_foreign_key(values, top_locale, default_locale, path)
+            value.resolve_foreign_key(values, top_locale, default_locale, extensions, path)
         })
     }
 
